@@ -40,3 +40,10 @@ package templates
 //@   ensures [H1_written_or_forwarded] (pending == 1 && nextRet == 0) ==> (forwarded == old(forwarded) + 1 || result0 >= 400)
 //@   ensures [unbuffered_passthrough] pending == 0 ==> forwarded == old(forwarded)
 //@   loop 1 invariant 0 <= #i && #i <= len(t.Rules) && pending == 0 && forwarded == old(forwarded) && nextCalls == old(nextCalls) && r.URL != nil
+
+//@ unit setup_sweep props=C11 files=setup.go nilchecks=on nonnil_params=on dispenser_variants=on filter=`.`
+//@ // Safety sweep of this directive's setup code: index, slice, division, nil-map store, nil dereference, explicit panic,
+//@ // and termination of the loops driven by the token cursor. No functional contract; callees in the dispenser through their contracts.
+//@ use casketfile/contracts_verif.go:dispenser_api
+//@ use @verif/specs/stdlib.spec:stdlib
+//@ use @verif/specs/stdlib.spec:casket_api
